@@ -222,7 +222,7 @@ inline constexpr void Conversion<Unit::Time, Unit::Time::Hour>::ToStandard(
 }
 
 template <typename NumericType>
-inline const std::map<Unit::Time, std::function<void(NumericType* values, const std::size_t size)>>
+inline const ConversionTable<Unit::Time, NumericType>
     MapOfConversionsFromStandard<Unit::Time, NumericType>{
       {Unit::Time::Second,      Conversions<Unit::Time, Unit::Time::Second>::FromStandard<NumericType>     },
       {Unit::Time::Nanosecond,
@@ -236,9 +236,8 @@ inline const std::map<Unit::Time, std::function<void(NumericType* values, const 
 };
 
 template <typename NumericType>
-inline const std::
-    map<Unit::Time, std::function<void(NumericType* const values, const std::size_t size)>>
-        MapOfConversionsToStandard<Unit::Time, NumericType>{
+inline const ConversionTable<Unit::Time, NumericType>
+    MapOfConversionsToStandard<Unit::Time, NumericType>{
           {Unit::Time::Second,
            Conversions<Unit::Time,                          Unit::Time::Second>::ToStandard<NumericType>     },
           {Unit::Time::Nanosecond,
